@@ -94,6 +94,9 @@ class LennardJonesPotential(MexicanHatPotential):
         float
             The potential.
         """
+        if not any(separation):
+            # The repulsive core diverges at vanishing separation (the two diverging terms must not be added).
+            return float('inf')
         return (self._six_power_potential.potential(1.0, separation)
                 + self._twelve_power_potential.potential(1.0, separation))
 
